@@ -3,16 +3,17 @@
 # Confirms in a scratch worktree: (a) the change compiles, (b) the repository's baseline suite still
 # passes with it, (c) the demonstration fails with the change and passes without it.
 set -u
+PKG="${PKG:-patronus}"
 WT="$1"; DIFF="$(readlink -f "$2")"; DEMO="$(readlink -f "$3")"; NAME="$4"; shift 4
 cd "$WT" || exit 2
-git checkout -q -- . ; rm -f patronus/tests/$NAME.rs
-cp "$DEMO" patronus/tests/$NAME.rs
+git checkout -q -- . ; rm -f $PKG/tests/$NAME.rs
+mkdir -p $PKG/tests; cp "$DEMO" $PKG/tests/$NAME.rs
 echo "== demo WITHOUT change"
-cargo test -p patronus --offline --test $NAME "$@" 2>&1 | grep -E "^test result|^test .*FAILED" | head -5
+mkdir -p $PKG/tests; cargo test -p $PKG --offline --test $NAME "$@" 2>&1 | grep -E "^test result|^test .*FAILED" | head -5
 git apply "$DIFF" || { echo "patch failed"; exit 2; }
 echo "== demo WITH change"
-cargo test -p patronus --offline --test $NAME "$@" 2>&1 | grep -E "^test result|^test .*FAILED|^error" | head -8
-rm -f patronus/tests/$NAME.rs
+mkdir -p $PKG/tests; cargo test -p $PKG --offline --test $NAME "$@" 2>&1 | grep -E "^test result|^test .*FAILED|^error" | head -8
+rm -f $PKG/tests/$NAME.rs
 echo "== baseline WITH change"
 python3 /verif/tools/baseline.py "$WT"
 git checkout -q -- . ; git status --short | head -3
